@@ -1,9 +1,8 @@
 use anyhow::Result;
 use colored::Colorize;
-use vespertide_planner::schema_from_plans;
+use vespertide_planner::{plan_next_migration_with_baseline, schema_from_plans};
 
 use crate::utils::{load_config, load_migrations, load_models};
-use std::collections::HashSet;
 
 pub async fn cmd_status() -> Result<()> {
     let config = load_config()?;
@@ -114,10 +113,12 @@ pub async fn cmd_status() -> Result<()> {
         let baseline = schema_from_plans(&applied_plans)
             .map_err(|e| anyhow::anyhow!("schema reconstruction error: {}", e))?;
 
-        let baseline_tables: HashSet<_> = baseline.iter().map(|t| &t.name).collect();
-        let current_tables: HashSet<_> = current_models.iter().map(|t| &t.name).collect();
+        // Synchronized means that planning the next migration finds nothing to do
+        // (the same test `diff` and `revision` apply), not merely that the table names match.
+        let pending = plan_next_migration_with_baseline(&current_models, &applied_plans, &baseline)
+            .map_err(|e| anyhow::anyhow!("planning error: {}", e))?;
 
-        if baseline_tables == current_tables {
+        if pending.actions.is_empty() {
             println!(
                 "{} {}",
                 "Status:".bright_cyan().bold(),
